@@ -98,6 +98,8 @@ struct Cx<'tcx> {
     ty_ix: HashMap<Ty<'tcx>, usize>,
     // promoted constants of the body being exported that are a fieldless variant of an ADT: index -> (adt, variant, index)
     prom_variants: HashMap<usize, (String, String, usize)>,
+    // promoted constants that are a range of two integer constants (`1..=64`): index -> (low, high, inclusive)
+    prom_ranges: HashMap<usize, (i128, i128, bool)>,
 }
 
 fn def_id_str(tcx: TyCtxt<'_>, did: DefId) -> String {
@@ -303,6 +305,9 @@ impl<'tcx> Cx<'tcx> {
                             f.push(("padt", s(adt.clone())));
                             f.push(("pvname", s(vn.clone())));
                             f.push(("pvariant", J::I(*vi as i128)));
+                        }
+                        if let Some((lo, hi, incl)) = self.prom_ranges.get(&p.as_usize()) {
+                            f.push(("prange", J::A(vec![J::I(*lo), J::I(*hi), J::I(if *incl { 1 } else { 0 })])));
                         }
                     }
                 }
@@ -626,7 +631,7 @@ impl rustc_driver::Callbacks for Cb {
         if !want.split(',').any(|c| c == krate) {
             return Compilation::Continue;
         }
-        let mut cx = Cx { tcx, types: Vec::new(), ty_ix: HashMap::new(), prom_variants: HashMap::new() };
+        let mut cx = Cx { tcx, types: Vec::new(), ty_ix: HashMap::new(), prom_variants: HashMap::new(), prom_ranges: HashMap::new() };
         let mut owners: Vec<_> = tcx.hir_body_owners().collect();
         // nested bodies (closures, coroutines) first: their MIR must be read before the
         // parent's queries steal it.
@@ -644,8 +649,54 @@ impl rustc_driver::Callbacks for Cb {
                 continue;
             }
             cx.prom_variants.clear();
+            cx.prom_ranges.clear();
             if !prom.is_stolen() {
                 for (pi, pb) in prom.borrow().iter_enumerated() {
+                    // `lo..=hi` / `lo..hi` of two integer literals
+                    let env = ty::TypingEnv::post_analysis(tcx, def.to_def_id());
+                    let cint = |o: &Operand<'tcx>| -> Option<i128> {
+                        if let Operand::Constant(c) = o {
+                            if c.const_.ty().is_integral() {
+                                if let Some(si) = c.const_.try_eval_scalar_int(tcx, env) {
+                                    return Some(si.to_bits(si.size()) as i128);
+                                }
+                            }
+                        }
+                        None
+                    };
+                    for blk in pb.basic_blocks.iter() {
+                        if let Some(term) = &blk.terminator {
+                            if let TerminatorKind::Call { func, args, .. } = &term.kind {
+                                if let Operand::Constant(fc) = func {
+                                    if let ty::FnDef(fd, _) = fc.const_.ty().kind() {
+                                        let name = def_id_str(tcx, *fd);
+                                        if name.ends_with("RangeInclusive::new") || name.contains("range::{impl") && name.ends_with("::new") {
+                                            if args.len() == 2 {
+                                                if let (Some(a), Some(b)) = (cint(&args[0].node), cint(&args[1].node)) {
+                                                    cx.prom_ranges.insert(pi.as_usize(), (a, b, true));
+                                                }
+                                            }
+                                        }
+                                    }
+                                }
+                            }
+                        }
+                        for st in &blk.statements {
+                            if let StatementKind::Assign(bx) = &st.kind {
+                                if let Rvalue::Aggregate(kind, ops) = &bx.1 {
+                                    if let AggregateKind::Adt(did, _, _, _, _) = &**kind {
+                                        let an = def_id_str(tcx, *did);
+                                        if an.ends_with("ops::range::Range") && ops.len() == 2 {
+                                            let v: Vec<&Operand<'tcx>> = ops.iter().collect();
+                                            if let (Some(a), Some(b)) = (cint(v[0]), cint(v[1])) {
+                                                cx.prom_ranges.insert(pi.as_usize(), (a, b, false));
+                                            }
+                                        }
+                                    }
+                                }
+                            }
+                        }
+                    }
                     let mut found: Vec<(String, String, usize)> = Vec::new();
                     let mut other = 0;
                     for blk in pb.basic_blocks.iter() {
